@@ -15,9 +15,9 @@ var setterPools = map[string][]string{
 	"username": {"", "u", "user", "u:p", "u@v", "u/v", "u?v", "u#v", "u v", "ü", "%41", "%", "%zz", "\x00", "\x7f", "a\tb", "a\nb", "'\"<>`{}", "[]^|\\", ";=", "~-._!$&()*+,", "\xff"},
 	"password": {"", "p", "pass", "p:q", "p@q", "p/q", "p?q", "p#q", "p q", "π", "%41", "%", "%zz", "\x00", "\x7f", "a\tb", "a\nb", "'\"<>`{}", "[]^|\\", ";=", "~-._!$&()*+,", "\xff"},
 	"host": {"", "h", "example.com", "EXAMPLE.com", "h:80", "h:443", "h:8080", "h:", "h:0", "h:65536", "h:8a", "h:80/x", "h/x", "h?x", "h#x", "h\\x", "h@x", ":80", "u@h", "u:p@h:1", "[::1]", "[::1]:80", "[::1]:443", "[[::1]", "[::1[]", "[::1]]", "[::1", "::1]",
-		"1.2.3.4", "0x7f.1", "1.2.3.4:5", "256.1.1.1", "1.2.3.4.5", "-1", "a b", "a%20b", "a%41", "a<b", "a^b", "a|b", "%", "ü.com", "xn--nxasmq6b", "xn--", "a≠b", "localhost", "LOCALHOST", "loc%61lhost", "localhost:80", "C:", "C|", "c:", "\tx", "x\n", "x y", "a.b.", "a..b", ".", "..", "09", "0x", "1.2.3.4.", "h:00080", "h:٨٠", "\xff", "a\xffb"},
+		"1.2.3.4", "0x7f.1", "1.2.3.4:5", "256.1.1.1", "1.2.3.4.5", "-1", "a b", "a%20b", "a%41", "a<b", "a^b", "a|b", "%", "ü.com", "xn--nxasmq6b", "xn--", "xn--xn----", "xn--abc-", "a≠b", "localhost", "LOCALHOST", "loc%61lhost", "localhost:80", "C:", "C|", "c:", "\tx", "x\n", "x y", "a.b.", "a..b", ".", "..", "09", "0x", "1.2.3.4.", "h:00080", "h:٨٠", "\xff", "a\xffb"},
 	"hostname": {"", "h", "example.com", "EXAMPLE.com", "h:80", "h:", ":80", "h/x", "h?x", "h#x", "h\\x", "h@x", "u@h", "[::1]", "[::1]:80", "[[::1]", "[::1[]", "[::1]]", "[::1", "::1]", "[1:0:0:2::3]",
-		"1.2.3.4", "0x7f.1", "256.1.1.1", "1.2.3.4.5", "-1", "a b", "a%20b", "a%41", "a<b", "a^b", "a|b", "%", "ü.com", "xn--nxasmq6b", "xn--", "a≠b", "localhost", "LOCALHOST", "loc%61lhost", "C:", "C|", "\tx", "x\n", "x y", "a.b.", "a..b", ".", "..", "09", "0x", "1.2.3.4.", "\xff", "a\xffb", "example.org"},
+		"1.2.3.4", "0x7f.1", "256.1.1.1", "1.2.3.4.5", "-1", "a b", "a%20b", "a%41", "a<b", "a^b", "a|b", "%", "ü.com", "xn--nxasmq6b", "xn--", "xn--xn----", "xn--abc-", "a≠b", "localhost", "LOCALHOST", "loc%61lhost", "C:", "C|", "\tx", "x\n", "x y", "a.b.", "a..b", ".", "..", "09", "0x", "1.2.3.4.", "\xff", "a\xffb", "example.org"},
 	"port": {"", "0", "1", "21", "80", "443", "8080", "65535", "65536", "99999", "00080", "00000", "000001", "99999999999999999999", "8a", "a", "a8", "-1", "+80", " 80", "80 ", "8 0", "80/x", "80?x", "80#x", "80\\x", "80:", ":80", "٨٠", "0x50", "\t80", "8\n0", "80\x00", "8@0", "\xff"},
 	"pathname": {"", "/", "//", "///", "a", "/a", "a/b", "/a/b/", "/a//b", "\\a", "/a\\b", ".", "..", "/.", "/..", "/./", "/../", "/a/./b", "/a/../b", "/a/..", "/%2e", "/%2E%2e", "/.%2e/x", "//.", "//..", "/.//x", "/..//x", "//x", "?", "#", "/a?b", "/a#b", "?a", "#a",
 		"C|", "/C|", "/C|/x", "C:", "/c:/..", "/C|/../x", "C|/x", " ", "/ ", "a b", "/é", "/🌈", "%", "/%4", "/%zz", "/%41", "/%00", "'\"<>`{}|^", "\t/a", "/a\n", "\x00", "\x7f", "\xff", "/\xc3", "a:b", "/a:b", "@", "[x]", ";a=b"},
